@@ -1160,13 +1160,27 @@ def clone_module(mod, overrides, subst=None, builtins_extra=None, importer=None)
             continue
         if isinstance(obj, type) and obj.__module__ == mod.__name__:
             ns = {}
-            for k, v in vars(obj).items():
-                if isinstance(v, types.FunctionType):
-                    ns[k] = re(v)
-                elif isinstance(v, (staticmethod, classmethod)) and isinstance(v.__func__, types.FunctionType):
-                    ns[k] = type(v)(re(v.__func__))
-                elif isinstance(v, property):
-                    ns[k] = property(re(v.fget) if v.fget else None, re(v.fset) if v.fset else None)
+            # methods inherited from base classes of the SAME module are cloned too (flattened into the clone, most derived last),
+            # otherwise a mixin's methods would run as the real functions over the real module namespace
+            for klass in reversed([c for c in obj.__mro__ if getattr(c, "__module__", None) == mod.__name__]):
+                for k, v in vars(klass).items():
+                    if isinstance(v, types.FunctionType):
+                        ns[k] = re(v)
+                    elif isinstance(v, (staticmethod, classmethod)) and isinstance(v.__func__, types.FunctionType):
+                        ns[k] = type(v)(re(v.__func__))
+                    elif isinstance(v, property):
+                        ns[k] = property(re(v.fget) if v.fget else None, re(v.fset) if v.fset else None)
+                    elif isinstance(v, rnp.ndarray) and v.dtype.kind in "fc" and not k.startswith("__"):
+                        # class-level work arrays (shared by all instances of the class -- and only of this module copy): able to hold proxies
+                        key = ("classattr", id(v))
+                        if key not in subst:
+                            subst[key] = v.astype(object).view(SymNd)
+                        ns[k] = subst[key]
+                    elif type(v) in (dict, list) and not k.startswith("__"):
+                        key = ("classattr", id(v))
+                        if key not in subst:
+                            subst[key] = sub(v)
+                        ns[k] = subst[key]
             try:
                 G[name] = type(obj.__name__, (obj,), ns)
             except TypeError:
